@@ -345,52 +345,92 @@ func (p *Program) ruleCircleConvention(c *Check) {
 	}
 	c.Expect(good, "E6.circle", con, p.declPos(m), "Feature/Point/properties{type:Circle,radius,radius_units:m}: "+sb.String(),
 		"the Circle writer does not emit the Feature/Point/properties{type:Circle,radius,radius_units:m} form: "+sb.String())
-	// reader: parseJSONFeature reads exactly those paths and takes "m" unscaled
+	// reader: parseJSONFeature is run abstractly (Parse and NewCircle are not entered; helpers are):
+	// whenever it builds a Circle it has read the three members the writer emits, the
+	// radius is taken unscaled for "m" (and for a missing unit) and times 1000 for "km",
+	// any other unit is an error, and the centre is the parsed point's position
 	pf := p.Func("geojson", "parseJSONFeature")
-	fd, pkg := p.Decl(pf), p.DeclPkg(pf)
-	if fd == nil {
+	parse, newCircle := p.Func("geojson", "Parse"), p.Func("geojson", "NewCircle")
+	if pf == nil || parse == nil || newCircle == nil {
 		c.Undecided("E6.circle", "anchor:geojson.parseJSONFeature", "", "reader not found")
 		return
 	}
-	info := pkg.TypesInfo
-	strs := map[string]bool{}
-	ast.Inspect(fd.Body, func(n ast.Node) bool {
-		if bl, ok := n.(*ast.BasicLit); ok && bl.Kind == token.STRING {
-			if tv := info.Types[bl]; tv.Value != nil {
-				strs[constant.StringVal(tv.Value)] = true
+	before := len(c.Obs)
+	p.runE8(c, &e8row{id: "geojson.parseJSONFeature#circle", fn: pf, opaque: map[*types.Func]bool{parse: true, newCircle: true},
+		what: "the reader of the Circle convention uses the members the writer emits (properties.type/radius/radius_units), reads \"m\" unscaled and \"km\" times 1000, rejects other units, and centres the circle on the parsed point",
+		spec: func(a *e8assign, n *e8names, out *e8out) string {
+			// string atoms of one variable are mutually exclusive
+			byVar := map[string]int{}
+			for _, b := range n.bools {
+				if i := strings.Index(b, "=="); i > 0 && a.B(b) {
+					l, r := b[:i], b[i+2:]
+					v := r
+					if !strings.HasPrefix(l, `"`) {
+						v = l
+					}
+					byVar[v]++
+				}
 			}
-		}
-		return true
-	})
-	for _, want := range []string{"properties.type", "properties.radius", "properties.radius_units", "Circle"} {
-		c.Expect(strs[want], "E6.circle", "geojson.parseJSONFeature#reads("+want+")", p.declPos(pf), "present", "the Circle reader does not use \""+want+"\", which the writer emits")
+			for _, k := range byVar {
+				if k > 1 {
+					return "" // infeasible: one string equal to two different constants
+				}
+			}
+			circles := out.in.called("NewCircle")
+			if len(circles) == 0 {
+				return ""
+			}
+			got := map[string]bool{}
+			var unitsVar string
+			for _, cl := range out.in.trace {
+				if strings.HasSuffix(cl.fn, "Get") {
+					for _, ag := range cl.args {
+						if ag != nil && strings.HasPrefix(ag.name, `"properties.`) {
+							got[strings.Trim(ag.name, `"`)] = true
+						}
+					}
+				}
+			}
+			for _, w := range []string{"properties.type", "properties.radius", "properties.radius_units"} {
+				if !got[w] {
+					return "a Circle is built without reading \"" + w + "\", which the writer emits"
+				}
+			}
+			unit := func(u string) bool {
+				for _, b := range n.bools {
+					if (strings.HasPrefix(b, `"`+u+`"==`) || strings.HasSuffix(b, `=="`+u+`"`)) && strings.Contains(b, "radius_units") && a.B(b) {
+						return true
+					}
+				}
+				return false
+			}
+			_ = unitsVar
+			rad := circles[0].args[1]
+			if rad == nil || rad.k != kScalar || !strings.Contains(rad.name, "properties.radius") {
+				return "the Circle's radius is not the parsed properties.radius: " + in_valdesc(rad)
+			}
+			scaled := strings.Contains(rad.name, "*1000") || strings.Contains(rad.name, "1000*")
+			switch {
+			case unit("km"):
+				if !scaled {
+					return "radius_units \"km\" is not scaled to metres"
+				}
+			case unit("m") || unit(""):
+				if scaled || strings.HasPrefix(rad.name, "(") {
+					return "radius_units \"m\" (the unit the writer emits) is not read back unscaled: " + rad.name
+				}
+			default:
+				return "a Circle is built although radius_units is neither \"\", \"m\" nor \"km\""
+			}
+			ctr := circles[0].args[0]
+			if ctr == nil || ctr.k != kStruct || ctr.f["X"] == nil || !(strings.HasSuffix(ctr.f["X"].name, ".base.X") || strings.HasSuffix(ctr.f["X"].name, ".Point.X")) {
+				return "the Circle is not centred on the parsed point's position"
+			}
+			return ""
+		}})
+	for _, o := range c.Obs[before:] {
+		o.Rule = "E6.circle"
 	}
-	// "m" must be accepted without scaling: a case clause listing "m" with an empty body
-	okM := false
-	ast.Inspect(fd.Body, func(n ast.Node) bool {
-		cc, ok := n.(*ast.CaseClause)
-		if !ok {
-			return true
-		}
-		for _, e := range cc.List {
-			if tv := info.Types[e]; tv.Value != nil && tv.Value.Kind() == constant.String && constant.StringVal(tv.Value) == "m" && len(cc.Body) == 0 {
-				okM = true
-			}
-		}
-		return true
-	})
-	c.Expect(okM, "E6.circle", "geojson.parseJSONFeature#unit(m)", p.declPos(pf), "the unit the writer emits (\"m\") is read back without scaling", "radius_units \"m\" is rejected or scaled by the reader although the writer emits it")
-	// the radius and centre handed to NewCircle are the parsed ones
-	okNew := false
-	ast.Inspect(fd.Body, func(n ast.Node) bool {
-		if call, ok := n.(*ast.CallExpr); ok && types.ExprString(call.Fun) == "NewCircle" && len(call.Args) == 3 {
-			if types.ExprString(call.Args[1]) == "radius" {
-				okNew = true
-			}
-		}
-		return true
-	})
-	c.Expect(okNew, "E6.circle", "geojson.parseJSONFeature#NewCircle", p.declPos(pf), "the parsed radius is the Circle's radius", "the Circle is not built from the parsed radius")
 }
 
 // ruleFeatureProperties: a Feature always emits a properties member.
@@ -597,6 +637,14 @@ func (p *Program) ruleStride(c *Check) {
 							posAppends++
 						}
 					}
+					if ok && strings.HasSuffix(types.ExprString(l), ".dims") && len(call.Args) == 1 && (types.ExprString(call.Fun) == "byte" || types.ExprString(call.Fun) == "uint8") {
+						if _, isConst := call.Args[0].(*ast.BasicLit); !isConst {
+							dimsAssign++
+							if loopBound == "" {
+								loopBound = types.ExprString(call.Args[0])
+							}
+						}
+					}
 					if ok && strings.HasPrefix(types.ExprString(x.Rhs[i]), "int(") && strings.HasSuffix(types.ExprString(call.Args[0]), ".dims") {
 						dimsAssign++
 						loopBoundCandidate := types.ExprString(l)
@@ -615,6 +663,16 @@ func (p *Program) ruleStride(c *Check) {
 							if loopBound != "" && hi != lo+"+"+loopBound && hi != loopBound+"+"+lo {
 								problems = append(problems, "the value loop ranges over "+types.ExprString(x.X)+", whose length is not the stored dimension "+loopBound)
 							}
+						}
+					}
+				}
+			case *ast.KeyValueExpr:
+				// &extra{dims: byte(D)}: the stride is stored from the local D
+				if id, ok := x.Key.(*ast.Ident); ok && id.Name == "dims" {
+					if call, ok := ast.Unparen(x.Value).(*ast.CallExpr); ok && len(call.Args) == 1 {
+						dimsAssign++
+						if loopBound == "" {
+							loopBound = types.ExprString(call.Args[0])
 						}
 					}
 				}
@@ -740,4 +798,11 @@ func (p *Program) ruleStride(c *Check) {
 		return true
 	})
 	c.Expect(good, "E6.stride", "geojson.appendJSONPoint#stride", p.declPos(wf), "reads values[idx*dims+i] for i < dims with dims = int(ex.dims)", "the writer does not read the extra ordinates at idx*dims+i for i < dims with the stored dims")
+}
+
+func in_valdesc(v *val) string {
+	if v == nil {
+		return "<nil>"
+	}
+	return fmt.Sprintf("kind=%d name=%q", v.k, v.name)
 }
